@@ -17,6 +17,7 @@ import (
 	"github.com/consensys/gnark/constraint"
 
 	"github.com/consensys/gnark/constraint/solver"
+	"github.com/consensys/gnark/constraint/verifhook"
 	"github.com/consensys/gnark/debug"
 	"github.com/consensys/gnark/frontend/schema"
 	"github.com/consensys/gnark/logger"
@@ -536,6 +537,9 @@ func (e *engine) NewHint(f solver.Hint, nbOutputs int, inputs ...frontend.Variab
 		res[i] = new(big.Int)
 	}
 
+	if verifhook.Enabled && verifhook.WrapHint != nil {
+		f = verifhook.WrapHint(solver.GetHintID(f), f)
+	}
 	err := f(e.Field(), in, res)
 
 	if err != nil {
